@@ -660,10 +660,14 @@ fn c07_offsets(len: usize) -> Vec<usize> {
 		return (0..len).collect();
 	}
 	let mut v: Vec<usize> = (0..200).map(|k| k * len / 200).collect();
-	v.extend(len - 64..len);
+	v.extend(len.saturating_sub(400)..len);
 	v.sort();
 	v.dedup();
 	v
+}
+
+pub fn c07_label(_spec: &Spec, sub: usize) -> String {
+	sub.to_string()
 }
 
 /// `only`: a single prefix length to test (replay of a witness).
@@ -675,8 +679,7 @@ pub fn c07(spec: &Spec, p: &Progress, only: Option<usize>) -> Outcome {
 		None => c07_offsets(bytes.len()),
 	};
 	for o in offs {
-		p.sub.store(o, Ordering::Relaxed);
-		match read_with(&bytes[..o], None) {
+		match p.timed(o, || read_with(&bytes[..o], None)) {
 			Ok(Err(_)) => {}
 			Ok(Ok(g)) => return Violated { extra: o.to_string(), msg: format!("the first {} of {} bytes were accepted as a complete replay ({} frames)", o, bytes.len(), g.frames.len()) },
 			Err(pn) => return Violated { extra: o.to_string(), msg: format!("the reader panicked on the first {} of {} bytes: {}", o, bytes.len(), pn) },
@@ -775,6 +778,14 @@ pub fn mutations(bytes: &[u8], exp: &Expected) -> Vec<(String, Vec<u8>)> {
 			b[gs_payload + off..gs_payload + off + width].copy_from_slice(&fill);
 			out.push((format!("gs:{}:{}", name, fname), b));
 		}
+	}
+	// a Game Start that declares no occupied port (all four player-type bytes "empty"), followed by the frame events as they are
+	{
+		let mut b = bytes.to_vec();
+		for port in 0..4 {
+			b[gs_payload + 0x64 + 0x24 * port + 1] = 3;
+		}
+		out.push(("gs:noports".to_string(), b));
 	}
 	// declared raw length
 	for n in [0u32, 5, exp.raw_len as u32 - 1, exp.raw_len as u32 + 1, 0x7fff_ffff, 0xffff_ffff] {
